@@ -3,17 +3,72 @@
 import json, os, subprocess
 V = os.path.dirname(os.path.dirname(os.path.abspath(__file__)))
 
-S = "symbolic execution of the real generic code on symbolic items, every comparison decided by z3 (engine S); bounded by shape"
-K = "Kani/CBMC bounded model checking of the compiled code (engine K)"
+S_NOTE = ("Trusts rustc/std (the real code runs natively), z3 4.8.12 (libz3 C API), and the Sym/SymTxt/engine glue of /verif/symx; "
+          "assumes the element type is touched only via PartialEq/Ord/Hash/DiffableStr; symbolic items hash to a constant (lawful) unless stated; "
+          "sampled passing leaves are re-executed concretely with value hashing and must give the same observation; "
+          "a counterexample is reported only after it reproduces natively (dev-semantics build and release-semantics build).")
+K_NOTE = ("Kani 0.68 / CBMC 6.11 with CaDiCaL over the compiled MIR; unwinding assertions on; each harness has a kani::cover reachability witness; "
+          "Vec::new / Vec::push / the vec![..] helper are replaced by non-growing versions with a loud capacity assertion where listed in the evidence; "
+          "counterexamples are replayed natively by the same harness body (kreplay) before being reported.")
+
+def S(text, tech, design, extra_note=""):
+    return dict(engine="symx", technique=tech, text=text, note=S_NOTE + (" " + extra_note if extra_note else ""), design=design)
+def SK(text, tech, design, extra_note=""):
+    return dict(engine="symx+kani", technique=tech, text=text, note=S_NOTE + " " + K_NOTE + (" " + extra_note if extra_note else ""), design=design)
+def Kc(text, tech, design, extra_note=""):
+    return dict(engine="kani", technique=tech, text=text, note=K_NOTE + (" " + extra_note if extra_note else ""), design=design)
+
+BOUNDED = " Bounded model checking, not a proof: everything beyond the stated bounds is outside the claim."
 
 CHECKS = {
- "C01": dict(engine="symx", technique="symbolic execution of the real diff algorithms (z3-decided comparisons), online monitor hook, bounded by range length",
-   text="Within the stated shape bounds (range lengths, padding layouts, index kinds, entry points) every path of the real myers/patience/lcs code is executed on symbolic items of an unbounded alphabet; each explored path stands for all inputs with that equality pattern, and the monitor's claims are asserted on all of them, data claims by solver entailment. Bounded model checking, not a proof: longer ranges are outside the claim.",
-   note="Trusts rustc/std (native execution), z3 4.8.12, ~200 lines of Sym/engine glue; assumes the element type is touched only via PartialEq/Ord/Hash; Sym hashes to a constant in symbolic runs; every 16th passing leaf is re-executed concretely with value hashing and must give the same callbacks.",
-   design="6/C01"),
+ "C01": S("Every path of the real myers/patience/lcs code within the shape bounds (range lengths <=4 quick / <=6 thorough, padded slices and offset lookups, three entry points) is executed on symbolic items of an unbounded alphabet; each path stands for all inputs with that equality pattern; the online monitor's claims hold on all of them, data claims by solver entailment; sub-range runs are compared with runs on the extracted slices." + BOUNDED,
+          "symbolic execution of the real diff algorithms (z3-decided comparisons) with an online monitor hook, bounded by range length", "6/C01"),
+ "C02": SK("Captured op lists of all capture entry points (incl. TextDiff::from_slices and TextDiffConfig::deadline) are validated on every path for n,m<=4/5, with the deadline as a symbolic clock; ratio range / ==1.0-iff-equal are decided per path, and get_diff_ratio's f32 arithmetic is model-checked bit-precisely by Kani for <=3 ops with lengths <=64 and for one Equal op up to 2^20." + BOUNDED,
+           "symbolic execution of the capture pipeline (z3) + Kani/CBMC on get_diff_ratio (IEEE f32)", "6/C02"),
+ "C03": SK("Myers and LCS, raw callbacks and captured ops: deleted+inserted == N+M-2L against a reference LCS whose comparisons are decided by the same solver, n,m<=4/6; ratio == 2L/(N+M) per path and bit-precisely in Kani." + BOUNDED,
+           "symbolic execution with a solver-decided reference LCS + Kani/CBMC on the ratio formula", "6/C03"),
+ "C04": S("The generic text layer (TextDiffConfig::diff_*, iter_all_changes, iter_changes) runs on symbolic text (SymTxt) for all pattern pairs up to 2/3 characters plus longer patterns, 5 tokenizers x 3 algorithms: non-Insert values are pointer-identical to old tokens in order (so they concatenate to the old text), non-Delete to new tokens, indices consecutive from 0. The byte-level half (tokens of str/[u8] concatenate to the input) is decided by Kani in C06 for lines/words/chars/lines-and-newlines; unicode words / graphemes of the real types are not decided." + BOUNDED,
+          "symbolic execution of the real generic text layer on a symbolic string type (z3)", "6/C04",
+          "SymTxt's tokenizers are the harness's (trivial by construction, checked to partition the text on every path); the real str/[u8] tokenizers are C06."),
+ "C05": S("Line diffs over symbolic lines (<=3/5 lines per side, LF/CRLF/CR, missing final newline, empty sides, 3 algorithms, radius 0..=2/3, header on/off, byte mode with invalid UTF-8 in every line): the diff stage is symbolic; the rendering of each path is produced by the real UnifiedDiff (Display and to_writer) on one model of the path and checked by an independent strict parser/applier (counts, true positions, order, exact application incl. the no-newline marker, empty output for equal inputs, context <= radius, deletions before insertions, writer bytes unchanged, Display == lossy(writer)); udiff::unified_diff on the instantiated real strings must agree. The compaction-swap stale-index defect is a listed known finding (attributed via hook H2)." + BOUNDED,
+          "symbolic execution of the line diff (z3) + strict unified-diff parser/applier on each path's rendering", "6/C05",
+          "Rendering copies line bytes without branching on them, so one model per path is exhaustive for that path."),
+ "C06": Kc("The real impl DiffableStr for str and for [u8] (tokenize_lines, tokenize_words, tokenize_lines_and_newlines, tokenize_chars, plus len/as_bytes/as_str/ends_with_newline) on fully symbolic byte buffers of length 1..2 (quick) / up to 3-4 (thorough): non-empty tokens that partition the input by pointer arithmetic, documented token shapes, and identical tokens from the str and [u8] implementations on valid UTF-8 (lines and chars; words / lines-and-newlines equivalence only where the harness fits in memory, see evidence). tokenize_unicode_words and tokenize_graphemes are NOT decided (third-party segmentation tables; Kani's compiler crashes on unicode-segmentation)." + BOUNDED,
+           "Kani/CBMC bounded model checking of the real tokenizers on symbolic byte buffers", "6/C06"),
+ "C07": S("With hook H1 the clock is a symbolic input: one z3 Bool per deadline probe with a latch, so expiry before the start, at every reachable probe, and never are all explored for 3 algorithms, n,m<=4/5, 7 entry points (incl. TextDiffConfig::deadline/timeout): valid script, finish once, bounded comparisons after expiry (constants.json), never-expiring == no deadline, and the deadline reaches the algorithm (>=1 probe on disjoint inputs)." + BOUNDED,
+          "symbolic execution with a solver-controlled virtual clock (z3 Bool per deadline probe)", "6/C07"),
+ "C08": SK("The failing hook call index k is a z3 Int; every position incl. finish and 'never' is explored for 3 algorithms x 7 adapter stacks x n,m<=4/5: exact error propagation, no call after the failure, finish once and last, NoFinishHook suppresses only finish, default replace = delete+insert; Kani adds the integer forwarding wrappers for all usize arguments." + BOUNDED,
+           "symbolic execution with a symbolic failing-call index (z3) + Kani/CBMC on the forwarding wrappers", "6/C08"),
+ "C09": S("Normal form (alternation, no empty op, Replace merging, insertion at its latest position by solver entailment) on every captured list of the C02 exploration (all algorithms, deadline on/off, all entry points), n,m<=4/5; C10 pushes arbitrary valid scripts through Compact<Replace>." + BOUNDED,
+          "symbolic execution of the capture pipeline (z3), normal-form validator per path", "6/C09"),
+ "C10": S("All valid scripts over sequences up to 4x4 (quick) / 6x6 (thorough): every lattice path cut into runs in every way, exact carried indices, only the script's Equal equalities assumed; fed through Compact, Replace, Compact<Replace>: valid output, same deleted/inserted counts, delivered by finish, normal form through both, exact carried indices through Replace alone." + BOUNDED,
+          "symbolic execution of Compact/Replace on enumerated script skeletons with symbolic items (z3)", "6/C10"),
+ "C11": S("Both indices of every captured op are recomputed from the consumed counts on every path (n,m<=4/5, 4 entry points). The pinned tree violates this at the compaction swap: recorded known finding, attributed per counterexample by re-executing it with hook H2's repair switch (a violation that survives the repair is reported)." + BOUNDED,
+          "symbolic execution of the capture pipeline (z3) with exact-position validator; known-finding attribution by hook H2", "6/C11"),
+ "C12": SK("group_diff_ops is model-checked by Kani on alternating op lists whose structure is concrete per harness (up to 3 ops quick / 7 ops thorough, all Equal/Delete/Insert/Replace positions up to the distinctions the code makes) with all lengths (1..=255), start offsets and the radius n (0..=255) symbolic, one harness per choice of which interior Equal runs exceed 2n; the oracle is the statement in straight-line arithmetic. Capture::into_grouped_ops and TextDiff::grouped_ops are checked as forwarders (Kani for Capture; engine S on the op lists of symbolic text diffs, radius 0..=3, where the statement is also evaluated natively)." + BOUNDED,
+           "Kani/CBMC on group_diff_ops with symbolic lengths and radius + symbolic-execution check of the forwarders", "6/C12",
+           "n*2 overflow for huge n and lengths above 255 are outside the claim."),
+ "C13": SK("Kani: ChangesIter/iter_slices/apply_to_hook/as_tag_tuple for a fully symbolic op (any tag, offsets, lengths <=4) over symbolic byte sequences; engine S: whole-diff iteration == concatenation of per-op expansions (pointer identity) on every path of the text exploration, incl. UnifiedDiffHunk::iter_changes and Capture round-trip." + BOUNDED,
+           "Kani/CBMC on the expansion iterators + symbolic execution of whole-diff iteration (z3)", "6/C13"),
+ "C14": S("Text diff ops == capture_diff_slices over the same tokens on every path below the threshold (all pattern pairs x 5 tokenizers x 3 algorithms, algorithm()/newline_terminated()/from_* constructors) and above it (skeleton family of 99..103 pairwise-different tokens plus up to 2 extra tokens, char and line tokens); IdentifyDistinct<u8|u16|u32>: ids equal iff items equal for every pair, ranges preserved (n,m<=4/5, non-zero offsets)." + BOUNDED,
+          "symbolic execution of TextDiffConfig::diff and IdentifyDistinct on symbolic tokens (z3), incl. a >100-token skeleton family", "6/C14",
+          "Above the threshold, fresh extra tokens are assumed different from the skeleton tokens (copies are explicit shapes) so that a class-based Hash is lawful."),
+ "C15": S("The harness decides with the solver which items are unique on both sides, computes the longest in-order subset, and requires patience (raw and captured) to report at least that many of them Equal, each paired with its counterpart; n,m<=4/5." + BOUNDED,
+          "symbolic execution of patience with a solver-decided anchor reference", "6/C15"),
+ "C16": S("Line diffs over symbolic lines of 1-3 symbolic words (<=6/8 words in total), 3 algorithms, inline deadline none / expired / built-in 500 ms under the symbolic clock: same tags and indices as the plain expansion, segments are consecutive sub-slices of the line (pointer identity), emphasis only in Delete/Insert of a Replace and never on a line break, missing_newline agrees; both sides of the 0.5 ratio gates are witnessed." + BOUNDED,
+          "symbolic execution of iter_inline_changes on symbolic text (z3), virtual clock for the inline deadline", "6/C16",
+          "With the unicode feature the inline code calls tokenize_unicode_words, which for SymTxt is the harness tokenizer."),
+ "C17": S("TextDiffRemapper (new/from_text_diff/slice_old/slice_new/iter_slices) and the one-call helpers utils::diff_{chars,words,unicode_words,graphemes,lines,slices} on symbolic text for all pattern pairs x 5 tokenizers x 3 algorithms: same tags as slice-wise expansion, each slice is the substring covering exactly the op's tokens (pointer+length), both texts reconstructed, no empty slice, no panic." + BOUNDED,
+          "symbolic execution of the remapper and helper functions on a symbolic string type (z3)", "6/C17"),
+ "C18": S("The real get_close_matches::<SymTxt> (both pre-filters, Myers, BinaryHeap, Ord of the string type) against an exhaustive ranking computed from a solver-decided LCS, for words/candidates up to 3 characters, up to 2/3 candidates (empty and duplicate ones included), n in 0..=3 and every cutoff at which the result can change (each attainable ratio, one ulp below/above, 0, 0.5, 1)." + BOUNDED,
+          "symbolic execution of get_close_matches on symbolic strings (z3) against an exhaustive reference ranking", "6/C18"),
+ "C19": S("Element comparisons are counted on every path: (a) all inputs n,m<=5/6, Myers against a reference D, Patience against its reported script; (b) a skeleton family of 50..200 (800 thorough) shared pairwise-different items plus <=2/3 free items. The bound C*(N+M+1)*(D+1) uses fixed constants (constants.json). (a) says nothing about growth and (b) is one family: periodic / small-alphabet / unrelated inputs of thousands of items are NOT claimed." + BOUNDED,
+          "symbolic execution with comparison counting (z3); Patience measured on each path's model with a real hash", "6/C19",
+          "For Patience the count is measured on the path's model with value hashing (a constant hash would make std's HashMap quadratic by construction of the harness)."),
+ "C20": S("On every explored path (equality pattern): two symbolic executions, a native re-execution with value hashing, and the path's model instantiated as i64 and as order-preserving String relabelling (also on a second thread) must all return the path's ops; 3 algorithms, n,m<=4/5. Quantification over hasher seeds and thread schedules is NOT decided (not solver-controllable inputs); the str-vs-[u8] text clause is reduced to C06's tokenizer equivalence plus this relabelling clause." + BOUNDED,
+          "symbolic execution (a path = an equality pattern) plus native re-executions on differently typed instantiations of each path's model", "6/C20"),
 }
 
-NOT_YET = {}
 props = [json.loads(l) for l in open(os.path.join(V, "properties.jsonl"))]
 checks = []
 na = []
@@ -33,7 +88,7 @@ for p in props:
             "technique": c["technique"],
         })
     else:
-        na.append({"property_id": pid, "reason": NOT_YET.get(pid, "check not built yet at this commit (planned per DESIGN.md section 6; no claim is made until its check exists)")})
+        na.append({"property_id": pid, "reason": "check not built yet at this commit; no claim is made"})
 
 hooks_commits = []
 try:
@@ -50,20 +105,20 @@ m = {
  "setup_cmd": "./check --setup",
  "hooks": {
    "guard": "similar_verif",
-   "enable": "RUSTFLAGS=\"--cfg similar_verif\" (set by ./check for every build of /repo)",
+   "enable": "RUSTFLAGS=\"--cfg similar_verif\" (set by ./check for every build of /repo: engine S, the Kani harness crate and the replay binaries)",
    "baseline_off_cmd": "cd /repo && cargo test --workspace --no-fail-fast --offline",
    "source_commits": hooks_commits,
    "add_only": True,
  },
  "engines": [
    {"name": "symx", "path": "symx", "serves_properties": sorted(k for k, c in CHECKS.items() if "symx" in c["engine"]),
-    "kind_free_text": "source-level dynamic symbolic executor: instantiates similar's generic code with a symbolic element type, decides every comparison with z3 (libz3 C API), DFS by re-execution, sharded over 16 processes"},
+    "kind_free_text": "source-level dynamic symbolic executor: instantiates similar's generic code with symbolic element / string types, decides every comparison with z3 (libz3 C API), DFS by re-execution, sharded over 16 processes"},
    {"name": "kani", "path": "kani", "serves_properties": sorted(k for k, c in CHECKS.items() if "kani" in c["engine"]),
-    "kind_free_text": "Kani 0.68 / CBMC 6.11 proof harnesses over the compiled integer/byte kernels"},
+    "kind_free_text": "Kani 0.68 / CBMC 6.11 proof harnesses over the compiled integer / byte kernels, with native replay of counterexamples"},
  ],
  "checks": checks,
  "not_applicable": na,
- "notes": "Every check is bounded (model_checking level), decided by an SMT/SAT solver over the real code; see DESIGN.md. Exit 2 = inconclusive, never reported as success.",
+ "notes": "Every check is bounded (model_checking level) and decided by an SMT/SAT solver over the real code; see DESIGN.md. Exit 2 = inconclusive, never reported as success. Clauses that are not decided (unicode word / grapheme tokenizers of str/[u8]; hasher seeds and threads; large unstructured inputs for the work bound) are named in the level texts of C04/C06/C17/C20/C19 because the manifest has no per-clause field.",
 }
 json.dump(m, open(os.path.join(V, "MANIFEST.json"), "w"), indent=1)
 print("wrote MANIFEST.json with", len(checks), "checks,", len(na), "not applicable")
